@@ -285,7 +285,7 @@ def trace_features(case, trace):
 
 
 def keep_impl(keep):
-    return lambda l: keep(l) or l.startswith('CRASH') or l == 'HANG' or l.startswith('fault') or l.startswith('harness-error')
+    return lambda l: keep(l) or l.startswith('CRASH') or l.startswith('HANG') or l.startswith('fault') or l.startswith('harness-error')
 
 
 def shrink(case, still_fails, max_tests=300):
